@@ -187,11 +187,13 @@ def run_shard(ctx):
             ctx.obs_sets["families"].add(fam)
     # documented ignored lines: skipped in both settings
     for u in G.IGNORED:
-        i += 1
-        if ctx.mine(i):
-            r = ctx.sub_rng("ign", i)
-            groups = [GS.gen_group(r, r.choice(kinds), 0), GS.gen_group(r, r.choice(kinds), 1)]
-            check_case(ctx, {"gen": "ignored_line", "ignored_only": True, "groups": groups, "inserts": {str(r.randrange(3)): [u]}, "mode": "sql"})
+        for gap in range(3):
+            for rep in range(1 if ctx.tier == "quick" else 4):
+                i += 1
+                if ctx.mine(i):
+                    r = ctx.sub_rng("ign", i)
+                    groups = [GS.gen_group(r, r.choice(kinds), 0), GS.gen_group(r, r.choice(kinds), 1)]
+                    check_case(ctx, {"gen": "ignored_line", "ignored_only": True, "groups": groups, "inserts": {str(gap): [u]}, "mode": r.choice(["sql", "mssql", "hql"])})
     # random mixes
     for j in range(ctx.budget(1000, 40000)):
         n = rng.randint(1, 4)
